@@ -756,9 +756,14 @@ FAULT_CLASS = {"leader-killed-while-followers-stopped": "leader", "leader-stoppe
                "leader-links-stalled": "leader", "follower-link-stalled": "follower", "follower-requests-stalled": "follower"}
 
 
-def lost_sig(hist, op, symptom="acked-write-lost"):
-    """symptom / who acknowledged (the regime) / class of the fault around the write"""
+def lost_sig(hist, op, symptom="acked-write-lost", on_majority=False):
+    """symptom / who acknowledged (the regime) / class of the fault around the write.
+    on_majority: the write is served by a majority of the nodes, i.e. it WAS committed, whatever happened to the deciding leader a few
+    milliseconds after its answer; the class "not-leader-at-answer" (success answered without a commit) does not apply then and the
+    write is attributed to the regime of the leader that decided it (what is missing on the minority is the dependency's apply loss)"""
     boot, held, leader = acker_of(hist, op)
+    if on_majority and leader is not None:
+        held = "held"
     acker = "not-leader-at-answer" if held != "held" else "bootstrap-leader" if boot == "yes" else "elected-leader"
     nf = near_fault(hist, op)
     return "%s/acker=%s/fault=%s" % (symptom, acker, FAULT_CLASS[nf]), {"acking_leader": leader, "bootstrap_leader": boot, "leadership": held, "near_fault": nf}
@@ -915,7 +920,7 @@ def check_history(hist, pass_index=None):
                     continue
                 x = {"write": w, "in_history_of": have, "missing_on": sorted(set(judged) - set(have)), "acker": acker_of(hist, w), "near_fault": near_fault(hist, w), "when": tag}
                 if w["res"] == "ok":
-                    sig, y = lost_sig(hist, w, "acked-write-on-some-nodes-only")
+                    sig, y = lost_sig(hist, w, "acked-write-on-some-nodes-only", on_majority=len(have) * 2 > 3)
                     V.append((sig, wit(k, dict(x, **y))))
                 else:
                     V.append(("unacked-write-on-some-nodes-only", wit(k, x)))
@@ -1017,6 +1022,137 @@ def single_node_case(wd, name, seed, preload):
         nd.kill()
 
 
+# ------------------------------------------------------------------------------------------------------------ uncommitted tail
+def uncommitted_tail_case(wd, name, seed):
+    """directed schedule for the clause "two nodes never settle on different contents": an ELECTED leader (leadership has moved away
+    from the bootstrap node first) loses both followers (SIGSTOP), receives writes that cannot be committed (not acknowledged: they
+    exist in its own log only), is killed; the followers resume, elect a new leader and commit other writes; the old leader
+    restarts. Whatever raft then does with the old leader's log tail, all three nodes must agree on every key afterwards: the
+    tail is either discarded everywhere or committed everywhere - a node that replays it into its state machine on its own serves
+    a value the cluster never agreed on."""
+    rnd = random.Random(seed)
+    res = {"name": name, "violations": [], "evaluations": 0, "facts": {}}
+    cl = procrig.Cluster(os.path.join(wd, name), 3, env={"RNACOS_RAFT_SNAPSHOT_LOG_SIZE": "400", "RUST_LOG": "warn"})
+    P = "/nacos/v1/cs/configs"
+
+    def put(nd, key, val, timeout=CLIENT_TIMEOUT):
+        try:
+            r = nd.post(P, form={"dataId": key, "group": GROUP, "content": val}, timeout=timeout)
+            return "ok" if r.status == 200 and r.text().strip() == "true" else "fail"
+        except (OSError, procrig.httpclient.HTTPException):
+            return "indet"
+
+    def read(nd, key):
+        try:
+            r = nd.get(P, params={"dataId": key, "group": GROUP}, timeout=4)
+        except (OSError, procrig.httpclient.HTTPException):
+            return "<no answer>"
+        return r.text() if r.status == 200 else None if r.status == 404 else "<status %s>" % r.status
+
+    def wait_leader(nodes, bound, exclude=None):
+        t0 = now()
+        while now() - t0 < bound:
+            for nd in nodes:
+                m = nd.metrics() if nd.alive() and not nd.stopped else None
+                if m and m.get("state") == "Leader" and nd is not exclude:
+                    return nd
+            time.sleep(0.2)
+        return None
+    try:
+        cl.start()
+        boot = cl.leader()
+        if boot is None:
+            raise Inconclusive("no leader after formation")
+        for i in range(3):
+            if put(boot, "ut-pre%d" % i, "pre-%d" % i) != "ok":
+                raise Inconclusive("warm-up publish refused")
+        # regime 2: leadership leaves the bootstrap node
+        boot.sigstop()
+        others = [n for n in cl.nodes if n is not boot]
+        L = wait_leader(others, 20)
+        boot.sigcont()
+        if L is None:
+            raise Inconclusive("no new leader while the bootstrap leader was stopped")
+        time.sleep(2.5)
+        L = wait_leader(cl.nodes, 15)
+        if L is None:
+            raise Inconclusive("no leader after the bootstrap leader resumed")
+        res["facts"]["bootstrap_leader"], res["facts"]["elected_leader"] = boot.id, L.id
+        if put(L, "ut-mid", "mid") != "ok":
+            raise Inconclusive("publish through the elected leader refused")
+        followers = [n for n in cl.nodes if n is not L]
+        # let the followers APPLY what has been committed so far (the commit index travels with the next heartbeat): entries that are
+        # committed but not yet applied when the leader changes are the dependency's known loss and not this scenario's subject
+        time.sleep(2.5)
+        for f in followers:
+            f.sigstop()
+        time.sleep(0.4)
+        # writes that cannot be committed
+        tail = []
+        n_tail = rnd.choice([1, 3, 6])
+        acked_without_quorum = []
+        for i in range(n_tail):
+            key, val = "ut-tail%d" % i, "%s-never-committed-%d" % (name, i)
+            a = put(L, key, val, timeout=1.5)
+            tail.append((key, val, a))
+            res["evaluations"] += 1
+            if a == "ok":
+                acked_without_quorum.append(key)
+        if rnd.random() < 0.5:
+            a = put(L, "ut-pre0", "%s-never-committed-overwrite" % name, timeout=1.5)
+            tail.append(("ut-pre0", "%s-never-committed-overwrite" % name, a))
+        L.kill()
+        for f in followers:
+            f.sigcont()
+        N = wait_leader(followers, 25)
+        if N is None:
+            raise Inconclusive("the two resumed nodes elected no leader within 25 s")
+        committed = []
+        for i in range(rnd.choice([1, 4])):
+            if put(N, "ut-new%d" % i, "new-%d" % i) == "ok":
+                committed.append("ut-new%d" % i)
+        if not committed:
+            raise Inconclusive("the new leader committed nothing")
+        time.sleep(rnd.uniform(0.2, 2.0))
+        L.start(wait=True, timeout=40)
+        # bounded convergence: all three answer the same for every key
+        keys = sorted({k for k, _, _ in tail} | set(committed) | {"ut-mid", "ut-pre1"})
+        deadline = now() + B
+        views = None
+        while True:
+            views = {k: [read(nd, k) for nd in cl.nodes] for k in keys}
+            ms = [nd.metrics() or {} for nd in cl.nodes]
+            same = all(len(set(map(str, v))) == 1 for v in views.values())
+            caught_up = len({m.get("last_applied") for m in ms}) == 1 and all(m.get("last_applied") is not None for m in ms)
+            if (same and caught_up) or now() > deadline:
+                break
+            time.sleep(1.0)
+        res["evaluations"] += len(keys) * 3
+        res["facts"].update({"tail": [[k, a] for k, _, a in tail], "committed_by_new_leader": committed, "new_leader": N.id,
+                             "last_applied": [m.get("last_applied") for m in ms], "terms": [m.get("current_term") for m in ms]})
+        differing = {k: v for k, v in views.items() if len(set(map(str, v))) != 1}
+        if acked_without_quorum:
+            res["violations"].append(("acked-without-quorum/acker=elected-leader", {"keys": acked_without_quorum, "facts": res["facts"]}))
+        elif differing and any("<" in str(x) for v in differing.values() for x in v):
+            raise Inconclusive("a node did not answer the final reads: %s" % differing)
+        elif differing:
+            tk = {k for k, _, _ in tail}
+            dt = {k: v for k, v in differing.items() if k in tk}
+            do = {k: v for k, v in differing.items() if k not in tk}
+            if dt:
+                res["violations"].append(("uncommitted-tail/nodes-differ-on-a-write-that-was-never-acknowledged",
+                                          {"views_[n1,n2,n3]": dt, "old_leader": L.id, "facts": res["facts"], "old_leader_log_tail": L.tail_log(800)}))
+            if do:
+                # an ACKNOWLEDGED write of the warm-up served by some nodes only: the elected-leader regime of the general oracle
+                res["violations"].append(("acked-write-on-some-nodes-only/acker=elected-leader/fault=leader",
+                                          {"views_[n1,n2,n3]": do, "old_leader": L.id, "facts": res["facts"], "scenario": "uncommitted-tail (leader killed while the followers were stopped)"}))
+        res["shape"] = "uncommitted-tail/%d-entries/%s" % (n_tail, "old-leader-was-bootstrap-node" if L is boot else "old-leader-elected-later")
+        return res
+    finally:
+        cl.kill_all()
+        shutil.rmtree(os.path.join(wd, name), ignore_errors=True)
+
+
 # ------------------------------------------------------------------------------------------------------------------ driver
 RULE = ("per cluster: 3 real nodes, snapshot threshold {40,400}, %d clients (%d gRPC) publishing unique values / removing / reading through random nodes, "
         "a seeded nemesis schedule (kill -9, SIGSTOP, restart, directed links held and released) with faults before and after the first leader change; history recorded at the client boundary with one monotonic "
@@ -1112,6 +1248,18 @@ def run(tier, seed):
 
         ts = threading.Thread(target=singles, daemon=True)
         ts.start()
+        utres = []
+
+        def tails():
+            for i in range(1 if tier == "quick" else 6):
+                try:
+                    utres.append(uncommitted_tail_case(wd, "ut%d" % i, seed * 1000 + 500 + i))
+                except Inconclusive as e:
+                    utres.append({"inconclusive": str(e)[:300]})
+                except OSError as e:
+                    utres.append({"inconclusive": repr(e)[:300]})
+        tt = threading.Thread(target=tails, daemon=True)
+        tt.start()
         for rd in range(rounds):
             # the first cluster of every round always drives the probed regime-1 scenario (bootstrap leader, both followers stopped, leader killed)
             jobs = [(wd, "k%d%d" % (rd, i), seed * 10007 + rd * 101 + i, 40 if (i + rd) % 2 == 0 else 400, sched, "followers-then-kill-leader" if i == 0 else None)
@@ -1120,6 +1268,20 @@ def run(tier, seed):
                 for hist in ex.map(one_cluster, jobs):
                     absorb(out, hist)
         ts.join(120)
+        tt.join(200 if tier == "quick" else 900)
+        ut = {"runs": 0, "facts": []}
+        for r in utres:
+            if "inconclusive" in r:
+                out.extra.setdefault("inconclusive_subruns", []).append("uncommitted-tail: " + r["inconclusive"])
+                continue
+            ut["runs"] += 1
+            out.evaluations += r["evaluations"]
+            ut["facts"].append(r["facts"])
+            for sig, w in r["violations"]:
+                out.violation(sig, w)
+            if not r["violations"] and r.get("shape"):
+                out.shape(r["shape"])
+        out.extra["uncommitted_tail_scenarios"] = ut
         early = 0
         for r in sres:
             if "inconclusive" in r:
@@ -1162,8 +1324,12 @@ def replay(path):
     sym = sig.split("/")[0]
     if op and sym in ("acked-write-lost", "acked-write-on-some-nodes-only") and "faults" in wit:
         hist = {"faults": wit["faults"], "timeline": wit["timeline"], "boot": wit.get("boot"), "events": wit.get("events") or []}
-        again, _ = lost_sig(hist, op, sym)
+        again, _ = lost_sig(hist, op, sym, on_majority=sym == "acked-write-on-some-nodes-only" and len(wit.get("in_history_of") or []) * 2 > 3)
         print("re-derived signature:", again)
+        known = {(k.get("property"), k.get("signature")) for k in common.load_findings().get("known", [])}
+        if again != sig and ("C06", again) in known:
+            print("KNOWN-FINDING: property=C06 %s (the recorded witness is classified under this listed signature by the current oracle)" % again)
+            return 0
         if again == sig:
             print("VIOLATION property=C06 replay=%s" % path)
             return 1
